@@ -47,6 +47,8 @@ def run(ctx):
     roots = ["SecretKey<C>::proof_of_possession", "ProofOfPossession<C>::verify", "BlsSignaturePop::pop_prove", "BlsSignaturePop::pop_verify"]
     A.check_aborts(ctx, "E8", P, roots, scope="C09")
     A.check_aborts(ctx, "E8", ctx.prog("blst", "nodebug"), roots, scope="C09", profile="nodebug")
+    # a proof selected in constant time is the proof that was asked for
+    F.check_conditional_select(ctx, "E6.select", P, only=("ProofOfPossession",))
     # "any change to the proof makes it fail": a proof (and the key it is checked against) enters only through the
     # subgroup-checking point decoders - an unchecked decoder would let a proof shifted by a small-order point parse
     from . import posctl as PC
